@@ -3,21 +3,21 @@
 // Contracts for govc (contract-based deductive verification); comment-only, compiled only with -tags verif.
 package types
 
-//@ func getBlockMinusOne
+//@ func getBlockMinusOne (fromBlock)
 //@   props C17
 //@   ensures result == ite(fromBlock > 0, fromBlock - 1, 0)
 
-//@ func (b BlockRange) CountBlocks
+//@ func (b BlockRange) CountBlocks (b)
 //@   props C17
 //@   requires b.ToBlock - b.FromBlock + 1 < 18446744073709551616
 //@   ensures[count] result == ite(b.FromBlock == 0 && b.ToBlock == 0, 0, ite(b.FromBlock > b.ToBlock, 0, b.ToBlock - b.FromBlock + 1))
 
-//@ func (b BlockRange) IsEmpty
+//@ func (b BlockRange) IsEmpty (b)
 //@   props C17
 //@   requires b.ToBlock - b.FromBlock + 1 < 18446744073709551616
 //@   ensures[empty] result == ((b.FromBlock == 0 && b.ToBlock == 0) || b.FromBlock > b.ToBlock)
 
-//@ func (b BlockRange) Gap
+//@ func (b BlockRange) Gap (b, other)
 //@   props C17
 //@   requires b.FromBlock <= b.ToBlock && other.FromBlock <= other.ToBlock
 //@   ensures[touch] (b.ToBlock + 1 >= other.FromBlock && other.ToBlock + 1 >= b.FromBlock) ==> result.IsEmpty()
@@ -32,7 +32,7 @@ package types
 //@ spec fn cntB(s []bridgesync.Bridge, f int, t int, k int) int = ite(k <= 0, 0, cntB(s, f, t, k-1) + ite(keepBlk(s[k-1].BlockNum, f, t), 1, 0))
 //@ spec fn cntC(s []bridgesync.Claim, f int, t int, k int) int = ite(k <= 0, 0, cntC(s, f, t, k-1) + ite(keepBlk(s[k-1].BlockNum, f, t), 1, 0))
 
-//@ func (c *CertificateBuildParams) Range
+//@ func (c *CertificateBuildParams) Range (c, fromBlock, toBlock)
 //@   props C17
 //@   requires c != nil
 //@   ensures[reject] (!(fromBlock == c.FromBlock && toBlock == c.ToBlock) && (fromBlock < c.FromBlock || toBlock > c.ToBlock || fromBlock > toBlock)) ==> result1 != nil && result0 == nil
@@ -64,7 +64,7 @@ package types
 // ---- size estimate: an uninterpreted function of the content (float arithmetic is not modelled; assumption A7)
 
 //@ spec fn estSize(bs []bridgesync.Bridge, nb int, cs []bridgesync.Claim, nc int, ty int) int
-//@ func (c *CertificateBuildParams) EstimatedSize
+//@ func (c *CertificateBuildParams) EstimatedSize (c)
 //@   trusted
 //@   ensures c == nil ==> result == 0
 //@   ensures c != nil ==> result == estSize(seq(c.Bridges), len(c.Bridges), seq(c.Claims), len(c.Claims), c.CertificateType)
@@ -72,7 +72,7 @@ package types
 // ---- certificate metadata codec (C03, C13): a 32-byte word; byte 0 = version, bytes 1..8 = first block,
 // 9..12 = number of further blocks, 13..16 = creation time, 17 = certificate type (version 2)
 
-//@ func (c *CertificateMetadata) ToHash
+//@ func (c *CertificateMetadata) ToHash (c)
 //@   props C03 C13
 //@   requires c != nil
 //@   ensures[version] (c.Version == 1 || c.Version == 2) ==> hb(result)[0] == c.Version
@@ -81,7 +81,7 @@ package types
 //@   ensures[created-at] (c.Version == 1 || c.Version == 2) ==> beVal(hb(result), 13, 4) == c.CreatedAt
 //@   ensures[cert-type] c.Version == 2 ==> hb(result)[17] == c.CertType
 
-//@ func NewCertificateMetadataFromHash
+//@ func NewCertificateMetadataFromHash (hash)
 //@   props C03 C13
 //@   requires forall(i, 0, 32, 0 <= hb(hash)[i] && hb(hash)[i] <= 255)
 //@   ensures[unsupported] hb(hash)[0] > 2 ==> result1 != nil
